@@ -8,6 +8,10 @@ Vocabulary (all from `Model.KVExec`, the definitions the driver `drv_C15` execut
 `run ops` is the executor state after a history of `init / exec txs / final h / inject tx / getTxs /
 reopen` calls on a fresh executor, `root` is `computeStateRoot`, `executeTxs`, `initChain` are the
 methods themselves.
+
+`writes ops` (defined in `Proofs.C15`) lists the key/value writes that reach the hashed key space:
+for `exec txs` the staged writes of the block if `stage txs` succeeds (else none), for `final h` with
+`h ≠ 0` the single write `("/finalizedHeight", dec h)`, for every other call none.
 -/
 namespace Spec.C15
 open KVExec
@@ -43,93 +47,6 @@ def parseErr (tx : Bytes) : Option Err :=
 def isPassive : Op → Bool
   | .init | .inject _ | .getTxs | .reopen => true
   | _ => false
-
-/-- the key/value writes that reach the hashed key space: those of executed blocks **and**, as the
-code stands, one write of `/finalizedHeight` per successful `SetFinal` -/
-def writesOf : Op → List (Key × Bytes)
-  | .exec txs => (match stage txs with | .ok ws => ws | .error _ => [])
-  | .final h => if h = 0 then [] else [(finalKey, dec h)]
-  | _ => []
-
-def writes (ops : List Op) : List (Key × Bytes) := ops.flatMap writesOf
-
-/-! ## helper facts (about the same definitions) -/
-
-theorem finalKey_not_reserved : isReserved finalKey = false := by decide
-
-theorem writesOf_not_reserved (op : Op) : ∀ w ∈ writesOf op, isReserved w.1 = false := by
-  cases op with
-  | exec txs =>
-    simp only [writesOf]
-    split
-    · next ws h => exact stage_not_reserved h
-    · simp
-  | final h =>
-    simp only [writesOf]
-    split
-    · simp
-    · intro w hw; simp at hw; subst hw; exact finalKey_not_reserved
-  | _ => simp [writesOf]
-
-theorem step_sorted {s : St} (op : Op) (hs : Sorted s.store) : Sorted (step s op).store := by
-  cases op with
-  | init =>
-    simp only [step, initChain]
-    split
-    · split <;> exact hs
-    · exact put_sorted (put_sorted hs)
-  | exec txs =>
-    simp only [step, executeTxs]
-    split
-    · exact hs
-    · exact applyWrites_sorted hs
-  | final h =>
-    simp only [step, setFinal]
-    split
-    · exact hs
-    · exact put_sorted hs
-  | inject tx => simp only [step, injectTx]; split <;> exact hs
-  | getTxs => exact hs
-  | reopen => exact hs
-
-/-- one step, seen through the hashed part of the store -/
-theorem step_user {s : St} (op : Op) (hs : Sorted s.store) :
-    user (step s op).store = applyWrites (writesOf op) (user s.store) := by
-  cases op with
-  | init =>
-    simp only [step, initChain, writesOf, applyWrites, List.foldl_nil]
-    split
-    · split <;> rfl
-    · rw [user_put_reserved _ _ (by decide), user_put_reserved _ _ (by decide)]
-  | exec txs =>
-    simp only [step, executeTxs, writesOf]
-    split
-    · next e h => simp [h, applyWrites]
-    · next ws h => simp only [h]; exact user_applyWrites (stage_not_reserved h) hs
-  | final h =>
-    simp only [step, setFinal, writesOf]
-    split
-    · rfl
-    · exact user_put_user _ finalKey_not_reserved hs
-  | inject tx => simp only [step, injectTx, writesOf]; split <;> rfl
-  | getTxs => rfl
-  | reopen => rfl
-
-theorem foldl_sorted (ops : List Op) {s : St} (hs : Sorted s.store) : Sorted (ops.foldl step s).store := by
-  induction ops generalizing s with
-  | nil => exact hs
-  | cons op r ih => exact ih (step_sorted op hs)
-
-theorem foldl_user (ops : List Op) {s : St} (hs : Sorted s.store) :
-    user (ops.foldl step s).store = applyWrites (writes ops) (user s.store) := by
-  induction ops generalizing s with
-  | nil => rfl
-  | cons op r ih =>
-    simp only [List.foldl_cons, writes, List.flatMap_cons]
-    rw [ih (step_sorted op hs), step_user op hs, applyWrites_append]
-    rfl
-
-theorem run_sorted (ops : List Op) : Sorted (run ops).store := foldl_sorted ops sorted_nil
 
 /-! ## 1. what the root is a function of -/
 
